@@ -9,6 +9,7 @@
 -/
 import AisVerif.Props.C06
 import AisVerif.Lemmas.Inv
+import AisVerif.Lemmas.Armor
 
 namespace AisVerif.C05
 open AisVerif Spec
@@ -258,5 +259,174 @@ theorem in_order_reassembly_with_noise (cfg : Cfg) (dec : Bool) (st : PState) (i
   have hr := in_order_reassembly_lines cfg dec st id l1 ls s1 rest hcl hne hnum hfit
   rw [a, b, hk, hr]
   exact ⟨rfl, rfl⟩
+
+/-! ### From bytes to a line and back: the unfragmented reference, end to end -/
+
+def hexDigitChar (d : Nat) : UInt8 := if d < 10 then UInt8.ofNat (48 + d) else UInt8.ofNat (55 + d)
+
+/-- A byte as two upper-case hexadecimal digits. -/
+def hex2 (n : Nat) : Bytes := [hexDigitChar (n / 16), hexDigitChar (n % 16)]
+
+theorem hex2_spec : ∀ c : Fin 256,
+    (hex2 c.val).takeWhile isHexDigit = hex2 c.val ∧ hexVal ((hex2 c.val).take 8) = c.val := by
+  decide +kernel
+
+/-- The body `AIVDM,1,1,,A,<payload>,<fill>`. -/
+def unfragBody (payload : Bytes) (fill : Nat) : Body :=
+  { talker := asciiStr "AI", report := asciiStr "VDM", nf := [0x31], fn := [0x31], id := [], ch := [0x41],
+    payload := payload, fill := [UInt8.ofNat (48 + fill)] }
+
+/-- `!<body>*<checksum>` -/
+def renderLine (b : Body) : Bytes := [] ++ [0x21] ++ b.render ++ [0x2A] ++ hex2 (xorAll b.render).toNat
+
+theorem armored_no_sep : ∀ c : Fin 256, (Spec.sixbit (UInt8.ofNat c.val)).isSome = true →
+    UInt8.ofNat c.val ≠ 0x2A ∧ UInt8.ofNat c.val ≠ 0x2C := by
+  decide +kernel
+
+theorem armored_mem_no_sep (data : Bytes) (h : AllArmored data) :
+    (0x2A : UInt8) ∉ data ∧ (0x2C : UInt8) ∉ data := by
+  constructor
+  · intro hm
+    have := armored_no_sep ⟨(0x2A : UInt8).toNat, by decide⟩ (by simpa using h _ hm)
+    exact this.1 (by decide)
+  · intro hm
+    have := armored_no_sep ⟨(0x2C : UInt8).toNat, by decide⟩ (by simpa using h _ hm)
+    exact this.2 (by decide)
+
+theorem fill_digit' : ∀ f : Fin 6, isDigit (UInt8.ofNat (48 + f.val)) = true ∧ decVal [UInt8.ofNat (48 + f.val)] = f.val := by
+  decide +kernel
+
+theorem fill_digit (f : Fin 6) : AllDigits [UInt8.ofNat (48 + f.val)] ∧ decVal [UInt8.ofNat (48 + f.val)] = f.val := by
+  refine ⟨fun d hd => ?_, (fill_digit' f).2⟩
+  simp only [List.mem_singleton] at hd
+  rw [hd]; exact (fill_digit' f).1
+
+theorem one_digits : ([0x31] : Bytes) ≠ [] ∧ AllDigits [0x31] ∧ decVal [0x31] ≤ 255 := by
+  refine ⟨by decide, fun d hd => ?_, by decide⟩
+  simp only [List.mem_singleton] at hd
+  rw [hd]; decide
+
+/-- **End to end, for every non-empty byte string `bs`** (a message as it is unarmored), every build and
+    every parser state: armoring `bs`, rendering `!AIVDM,1,1,,A,<payload>,<fill>*<checksum>` and feeding
+    that line with decoding on gives exactly what `parseMessage` gives for `bs` (followed by the one zero
+    byte unarmoring adds when `6·chars` crosses a byte boundary) — the same value or the same error — in a
+    `Complete` sentence that carries the transmitted fields, and the parser state is untouched. -/
+theorem unfragmented_line_decodes (cfg : Cfg) (st : PState) (bs : Bytes) (hne : bs ≠ [])
+    (hsz : (8 * bs.length + 5) / 6 ≤ maxSentence) :
+    step cfg st (renderLine (unfragBody (Spec.armor bs (8 * bs.length)).1 (Spec.armor bs (8 * bs.length)).2)) true =
+      (st, (parseMessage cfg (bs ++ List.replicate (Spec.unarmorLen ((8 * bs.length + 5) / 6) - bs.length) 0)).bind
+        fun m => ok (Frag.complete
+          { (unfragBody (Spec.armor bs (8 * bs.length)).1 (Spec.armor bs (8 * bs.length)).2).sentence with message := some m })) := by
+  have hall := armor_allArmored bs (8 * bs.length)
+  have hfill := armor_fill_le bs (8 * bs.length)
+  have hlen := armor_length bs (8 * bs.length)
+  obtain ⟨hstar, hcomma⟩ := armored_mem_no_sep _ hall
+  generalize hp : (Spec.armor bs (8 * bs.length)).1 = payload at *
+  generalize hf : (Spec.armor bs (8 * bs.length)).2 = fill at *
+  have hpne : payload ≠ [] := by
+    intro h
+    have : bs.length ≠ 0 := by simpa using hne
+    rw [h] at hlen; simp at hlen; omega
+  obtain ⟨hfd, hfv⟩ := fill_digit ⟨fill, by omega⟩
+  simp only [] at hfd hfv
+  have hwf : (unfragBody payload fill).WF cfg :=
+    { talker := rfl, report := rfl,
+      nf := one_digits, fn := one_digits,
+      id := Or.inl rfl, ch := (by show (0x2C : UInt8) ∉ [0x41]; decide),
+      payload := ⟨hcomma, hpne⟩,
+      fill := ⟨by simp [unfragBody], hfd, by simp only [unfragBody]; rw [hfv]; omega⟩,
+      cap := fun _ => by simp only [unfragBody]; rw [hlen]; exact hsz }
+  have hnostar : (0x2A : UInt8) ∉ (unfragBody payload fill).render := by
+    simp only [Body.render, unfragBody, comma, List.mem_append, not_or]
+    have hd : (0x2A : UInt8) ∉ [UInt8.ofNat (48 + fill)] := by
+      intro hm
+      have := hfd _ hm
+      revert this; decide
+    refine ⟨by decide, by decide, by decide, by decide, by decide, by decide, by decide, by simp, by decide, by decide, by decide, hstar, by decide, hd⟩
+  obtain ⟨hx1, hx2⟩ := hex2_spec ⟨(xorAll (unfragBody payload fill).render).toNat, UInt8.toNat_lt _⟩
+  simp only [] at hx1 hx2
+  have hparse := parseNmeaSentence_render cfg [] 0x21 (unfragBody payload fill)
+    (hex2 (xorAll (unfragBody payload fill).render).toNat) (Or.inl rfl) (Or.inl rfl) hwf hnostar
+    (by rw [hx1]; simp [hex2]) (by rw [hx1, hx2]; have := UInt8.toNat_lt (xorAll (unfragBody payload fill).render); omega)
+  rw [hx1, hx2] at hparse
+  unfold renderLine
+  rw [C17.step_of_parse cfg st _ _ _ _ true hparse rfl]
+  have h1 : (unfragBody payload fill).sentence.num_fragments = 1 := by
+    show decVal [0x31] = 1; decide
+  have hm : ¬ (unfragBody payload fill).sentence.fragment_number < (unfragBody payload fill).sentence.num_fragments := by
+    show ¬ decVal [0x31] < decVal [0x31]; decide
+  rw [stepSentence_unfrag cfg true st _ hm h1]
+  have hnl : ¬ TooLarge cfg ((8 * bs.length + 5) / 6) :=
+    not_tooLarge_small cfg _ (by unfold Spec.unarmorLen; unfold maxSentence at *; omega)
+  have hun := unarmor_armor_padded cfg bs hnl
+  rw [hp, hf] at hun
+  have hd : (unfragBody payload fill).sentence.data = payload := rfl
+  have hfc : (unfragBody payload fill).sentence.fill_bit_count = fill := by
+    show decVal [UInt8.ofNat (48 + fill)] = fill
+    exact hfv
+  unfold decodeInto
+  simp only [if_true, hd, hfc, hun, Res.ok_bind]
+  cases parseMessage cfg (bs ++ List.replicate (Spec.unarmorLen ((8 * bs.length + 5) / 6) - bs.length) 0) <;> rfl
+
+/-- Any well-formed body, rendered as `!<body>*<its checksum>`, is accepted at the sentence level and
+    reported as that body (grammar round trip + checksum). -/
+theorem classify_renderLine (cfg : Cfg) (b : Body) (hwf : b.WF cfg) (hs : (0x2A : UInt8) ∉ b.render) :
+    C06.classify cfg (renderLine b) = some b.sentence := by
+  obtain ⟨hx1, hx2⟩ := hex2_spec ⟨(xorAll b.render).toNat, UInt8.toNat_lt _⟩
+  simp only [] at hx1 hx2
+  have hparse := parseNmeaSentence_render cfg [] 0x21 b (hex2 (xorAll b.render).toNat) (Or.inl rfl) (Or.inl rfl) hwf hs
+    (by rw [hx1]; simp [hex2]) (by rw [hx1, hx2]; have := UInt8.toNat_lt (xorAll b.render); omega)
+  rw [hx1, hx2] at hparse
+  unfold C06.classify renderLine
+  rw [hparse]
+  simp
+
+/-- **C05 from the transmitted fields.** Any `n ≥ 2` well-formed bodies that number themselves 1…n of n
+    with one sequence id, each rendered as a line with its own correct checksum and fed in order to a
+    parser in any state: Incomplete (own fields) … Complete (exact concatenation, decoded like the
+    unfragmented payload); the parser ends idle. -/
+theorem rendered_group_reassembles (cfg : Cfg) (dec : Bool) (st : PState) (id : Option Nat)
+    (b1 : Body) (rest : List Body)
+    (hwf : ∀ b ∈ b1 :: rest, b.WF cfg ∧ (0x2A : UInt8) ∉ b.render)
+    (hne : rest ≠ [])
+    (hnum : Numbered (rest.length + 1) id 0 ((b1 :: rest).map Body.sentence))
+    (hfit : fits (capOf cfg) (total ((b1 :: rest).map Body.sentence))) :
+    run cfg dec st ((b1 :: rest).map renderLine) =
+      (expected cfg dec [] ((b1 :: rest).map Body.sentence), ⟨none, 0, []⟩) := by
+  have hcl : ((b1 :: rest).map renderLine).map (C06.classify cfg) = ((b1 :: rest).map Body.sentence).map some := by
+    rw [List.map_map, List.map_map]
+    apply List.map_congr_left
+    intro b hb
+    exact classify_renderLine cfg b (hwf b hb).1 (hwf b hb).2
+  have hne' : rest.map Body.sentence ≠ [] := by simpa using hne
+  have hlen : (rest.map Body.sentence).length = rest.length := by simp
+  simp only [List.map_cons] at hcl hnum hfit ⊢
+  exact in_order_reassembly_lines cfg dec st id (renderLine b1) (rest.map renderLine) b1.sentence (rest.map Body.sentence)
+    hcl hne' (by rw [hlen]; exact hnum) hfit
+
+/-- Non-vacuity: a concrete two-fragment group `!AIVDM,2,1,3,A,15,0*..`, `!AIVDM,2,2,3,A,M0,0*..`
+    meets every hypothesis of `rendered_group_reassembles`. -/
+def exB (k : UInt8) (p : Bytes) : Body :=
+  { talker := asciiStr "AI", report := asciiStr "VDM", nf := [0x32], fn := [k], id := [0x33], ch := [0x41],
+    payload := p, fill := [0x30] }
+
+theorem digits1 (d : UInt8) (h : isDigit d = true) : AllDigits [d] := by
+  intro x hx; simp only [List.mem_singleton] at hx; rw [hx]; exact h
+
+example : (∀ b ∈ [exB 0x31 [0x31, 0x35], exB 0x32 [0x4D, 0x30]], b.WF .std ∧ (0x2A : UInt8) ∉ b.render) ∧
+    Numbered 2 (some 3) 0 ([exB 0x31 [0x31, 0x35], exB 0x32 [0x4D, 0x30]].map Body.sentence) ∧
+    fits (capOf .std) (total ([exB 0x31 [0x31, 0x35], exB 0x32 [0x4D, 0x30]].map Body.sentence)) := by
+  refine ⟨?_, ⟨by decide, by decide, by decide, by decide, by decide, by decide, trivial⟩, by decide⟩
+  intro b hb
+  simp only [List.mem_cons, List.mem_nil_iff, or_false] at hb
+  rcases hb with rfl | rfl
+  · exact ⟨{ talker := rfl, report := rfl, nf := ⟨by decide, digits1 _ (by decide), by decide⟩,
+             fn := ⟨by decide, digits1 _ (by decide), by decide⟩, id := Or.inr ⟨digits1 _ (by decide), by decide⟩,
+             ch := by decide, payload := ⟨by decide, by decide⟩, fill := ⟨by decide, digits1 _ (by decide), by decide⟩,
+             cap := fun h => by cases h }, by decide⟩
+  · exact ⟨{ talker := rfl, report := rfl, nf := ⟨by decide, digits1 _ (by decide), by decide⟩,
+             fn := ⟨by decide, digits1 _ (by decide), by decide⟩, id := Or.inr ⟨digits1 _ (by decide), by decide⟩,
+             ch := by decide, payload := ⟨by decide, by decide⟩, fill := ⟨by decide, digits1 _ (by decide), by decide⟩,
+             cap := fun h => by cases h }, by decide⟩
 
 end AisVerif.C05
